@@ -588,23 +588,30 @@ class Path(Expression):
                 self.path.append(segment)
 
     def __str__(self) -> str:
+        return self._to_string(nested=False)
+
+    def _to_string(self, *, nested: bool) -> str:
+        # Between brackets a path starts with a bare name, whatever the name is. A
+        # quoted name there would be read back as a string, not a path.
         it = iter(self.path)
         root = next(it)
         if (
             isinstance(root, str)
             and RE_PROPERTY.fullmatch(root)
-            and root not in RESERVED_WORDS
+            and (nested or root not in RESERVED_WORDS)
         ):
             buf = [root]
         elif isinstance(root, str):
             # A root segment that would not be read back as a name.
             buf = [f"[{quote_string(root)}]"]
+        elif isinstance(root, Path):
+            buf = [f"[{root._to_string(nested=True)}]"]
         else:
             buf = [f"[{root}]"]
 
         for segment in it:
             if isinstance(segment, Path):
-                buf.append(f"[{segment}]")
+                buf.append(f"[{segment._to_string(nested=True)}]")
             elif isinstance(segment, str):
                 if RE_PROPERTY.fullmatch(segment):
                     buf.append(f".{segment}")
